@@ -179,7 +179,28 @@ impl StorageEngine {
     fn get_shard(&self, db: DatabaseIndex, key: &[u8]) -> Result<&Arc<RwLock<DatabaseShard>>> {
         let database = self.databases.get(db).ok_or(StorageError::InvalidDatabase)?;
         let shard_idx = self.get_shard_index(key);
-        Ok(&database.shards[shard_idx])
+        let shard = &database.shards[shard_idx];
+        
+        // Lazy expiration: every keyed operation of every data type looks its shard up here, so
+        // a key whose deadline has passed is removed before the operation can see it, whether
+        // or not the background sweeper has run yet
+        let expired = {
+            let shard_guard = shard.read().unwrap();
+            shard_guard.data.get(key).map(|v| v.is_expired()).unwrap_or(false)
+        };
+        if expired {
+            let mut shard_guard = shard.write().unwrap();
+            if shard_guard.data.get(key).map(|v| v.is_expired()).unwrap_or(false) {
+                if let Some(stored_value) = shard_guard.data.remove(key) {
+                    shard_guard.expiring_keys.remove(key);
+                    shard_guard.mark_modified(key);
+                    let memory_size = self.calculate_value_size(key, &stored_value.value);
+                    self.memory_manager.remove_memory(memory_size);
+                }
+            }
+        }
+        
+        Ok(shard)
     }
     
     /// Set a string value
@@ -439,7 +460,11 @@ impl StorageEngine {
         // Collect keys from all shards
         for shard in &database.shards {
             let shard_guard = shard.read().unwrap();
-            for key in shard_guard.data.keys() {
+            for (key, stored_value) in shard_guard.data.iter() {
+                // Expired keys that the sweeper has not collected yet do not exist
+                if stored_value.is_expired() {
+                    continue;
+                }
                 all_keys.push(key.clone());
             }
         }
@@ -2051,7 +2076,11 @@ impl StorageEngine {
         // Collect keys from all shards
         for shard in &database.shards {
             let shard_guard = shard.read().unwrap();
-            for key in shard_guard.data.keys() {
+            for (key, stored_value) in shard_guard.data.iter() {
+                // Expired keys that the sweeper has not collected yet do not exist
+                if stored_value.is_expired() {
+                    continue;
+                }
                 let key_str = String::from_utf8_lossy(key);
                 if pattern_matches(&pattern_str, &key_str) {
                     matching_keys.push(key.clone());
